@@ -6,7 +6,7 @@ use crate::report::{self, Report, Violation};
 use serde_json::json;
 use std::collections::{BTreeMap, BTreeSet};
 
-const FORMS: [&str; 19] = [
+const FORMS: [&str; 21] = [
     "use-single", "use-group", "use-nested-group", "use-glob", "qualified-path", "qualified-nested-path", "use-crate", "use-super", "use-self",
     // the target as a generic argument of a type of a third crate
     "qualified-generic-of-qualified", "qualified-generic-of-used", "used-generic-of-qualified", "qualified-generic-of-nested-qualified",
@@ -14,6 +14,8 @@ const FORMS: [&str; 19] = [
     "map-key-used", "pair-first-arg-of-used-generic", "pair-first-arg-qualified-generic-of",
     // a grouped use that also names things that are not types (functions, modules, self)
     "use-group-function-after-type", "use-group-function-before-type", "use-group-nested-with-self-and-function",
+    // a glob and explicit names from the same crate (the glob-only type and the named one are both used)
+    "use-glob-plus-named", "use-named-plus-glob-plus-qualified",
 ];
 
 fn third_crate(form: &str) -> bool {
@@ -50,6 +52,8 @@ fn workspace(c: &Case) -> Vec<(String, String)> {
         "use-group" => (format!("use {tc}::{{Target, Sibling}};\n"), "Target".to_string()),
         "use-nested-group" => (format!("use {tc}::{{inner::{{Target}}}};\n"), "Target".to_string()),
         "use-glob" => (format!("use {tc}::*;\n"), "Target".to_string()),
+        "use-glob-plus-named" => (format!("use {tc}::*;\nuse {tc}::Sibling;\n#[typeshare]\npub struct AlsoUses {{ pub s: Sibling }}\n"), "Target".to_string()),
+        "use-named-plus-glob-plus-qualified" => (format!("use {tc}::Sibling;\nuse {tc}::*;\n#[typeshare]\npub struct AlsoUses {{ pub s: Sibling, pub q: Vec<{tc}::Sibling> }}\n"), "Target".to_string()),
         "qualified-path" => (String::new(), format!("{tc}::Target")),
         "qualified-nested-path" => (String::new(), format!("{tc}::inner::deep::Target")),
         "qualified-generic-of-qualified" => (String::new(), format!("shapes::Page<{tc}::Target>")),
